@@ -618,6 +618,8 @@ def rule_x6(F):
                 res.append((bi, False))
             elif hir.last(c) in ("block", "expr") and "typechecker" in c:
                 checks.append(bi)
+            elif (mir.callee_def(t) or "").startswith("std::ops::Fn") and hir.last(mir.callee_def(t) or "") in ("call", "call_mut", "call_once"):
+                checks.append(bi)            # the body check handed in by the caller as a closure
             elif "typechecker" in c and c != path and F.body(c) is not None:
                 sm = summary(c, depth + 1)
                 if sm and sm["exits"] and sm["resolved"]:
